@@ -181,9 +181,33 @@ def d2_unordered(ctx, idx):
         matrix_body(r, idx)
 
 
-def matrix_body(r, idx):
-    """C05.D2 (also run as C07.D8): what find_optimal_order hands to the solver and how it reads the answer back."""
+def internal_padding(idx):
+    """{local name: 'answers' | 'student_list'} when find_optimal_order pads its own arguments:
+    `pad_a, pad_s = get_padded_lists(answers, student_list)`; and the local bound to padded_check(check), or None."""
     fi = idx.func(cm.LG_MOD + '.find_optimal_order')
+    roles, checker = {}, None
+    for n in walk_own(fi.node):
+        if isinstance(n, ast.Assign) and len(n.targets) == 1 and cm.is_call_to(n.value, 'get_padded_lists', 2) \
+                and isinstance(n.targets[0], ast.Tuple) and len(n.targets[0].elts) == 2 and all(isinstance(t, ast.Name) for t in n.targets[0].elts):
+            for t, a in zip(n.targets[0].elts, n.value.args):
+                if isinstance(a, ast.Name) and a.id in ('answers', 'student_list'):
+                    roles[t.id] = a.id
+        if isinstance(n, ast.Assign) and len(n.targets) == 1 and isinstance(n.targets[0], ast.Name) \
+                and cm.is_call_to(n.value, 'padded_check', 1) and cm.is_name(n.value.args[0], 'check'):
+            checker = n.targets[0].id
+    return roles, checker
+
+
+def matrix_body(r, idx, lists_may_differ=False):
+    """C05.D2 (also run as C07.D8): what find_optimal_order hands to the solver and how it reads the answer back.
+    lists_may_differ: the caller may pass lists of different lengths (SingleListGrader); ListGrader validates equal lengths."""
+    fi = idx.func(cm.LG_MOD + '.find_optimal_order')
+    pad_roles, pad_checker = internal_padding(idx)
+
+    def role(e):
+        if isinstance(e, ast.Name):
+            return pad_roles.get(e.id, e.id if e.id in ('answers', 'student_list') else None)
+        return None
     if fi.params != ['check', 'answers', 'student_list']:
         raise AnalysisError('find_optimal_order: parameters changed: %s' % fi.params)
     # --- result matrix
@@ -201,9 +225,14 @@ def matrix_body(r, idx):
         raise AnalysisError('find_optimal_order: result matrix comprehension has filters / several generators')
     og, ig = outer.generators[0], inner.generators[0]
     construct = 'find_optimal_order: result matrix rows'
-    if cm.is_name(og.iter, 'student_list') and cm.is_name(ig.iter, 'answers'):
-        r.ok(construct, 'one row per input, one column per answer', where)
-    elif cm.is_name(og.iter, 'answers') and cm.is_name(ig.iter, 'student_list'):
+    padded_both = len(pad_roles) == 2 and sorted(pad_roles.values()) == ['answers', 'student_list']
+    if role(og.iter) == 'student_list' and role(ig.iter) == 'answers' and \
+            ((og.iter.id in pad_roles) == (ig.iter.id in pad_roles)) and (og.iter.id not in pad_roles or padded_both):
+        r.ok(construct, 'one row per input, one column per answer%s' % (' (both padded to equal length here)' if og.iter.id in pad_roles else ''), where)
+    elif role(og.iter) == 'student_list' and role(ig.iter) == 'answers':
+        r.violation(construct, 'only one of the two lists is padded before the matrix is built (rows over `%s`, columns over `%s`): unmatched '
+                    'items of the longer list get no automatic-failure partner' % (short(og.iter), short(ig.iter)), where)
+    elif role(og.iter) == 'answers' and role(ig.iter) == 'student_list':
         r.violation(construct, 'the matrix has one row per *answer* and one column per input: the solver\'s pairs are (answer, input), '
                     'they come back sorted by answer, and the k-th result is reported in box k although it grades another input',
                     where, expected='[[... for a in answers] for i in student_list]', found=short(outer, 90))
@@ -211,12 +240,17 @@ def matrix_body(r, idx):
         r.undecided(construct, 'rows over `%s`, columns over `%s`' % (short(og.iter), short(ig.iter)), where)
     cell = inner.elt
     construct = 'find_optimal_order: matrix cell'
-    if isinstance(cell, ast.Call) and cm.is_name(cell.func, 'check') and len(cell.args) == 2 and not cell.keywords \
+    uses_padded = isinstance(og.iter, ast.Name) and og.iter.id in pad_roles
+    callee_ok = isinstance(cell, ast.Call) and (cm.is_name(cell.func, 'check') or (pad_checker and cm.is_name(cell.func, pad_checker)))
+    if callee_ok and uses_padded and cm.is_name(cell.func, 'check'):
+        r.violation(construct, 'the lists are padded with automatic failures but the raw `check` is called on the cells: padding objects '
+                    'reach the subgrader', lib.loc(fi, cell))
+    elif callee_ok and len(cell.args) == 2 and not cell.keywords \
             and all(isinstance(a, ast.Name) for a in cell.args):
         src = {}
         for g in (og, ig):
             if isinstance(g.target, ast.Name) and isinstance(g.iter, ast.Name):
-                src[g.target.id] = g.iter.id
+                src[g.target.id] = role(g.iter)
         got = [src.get(a.id) for a in cell.args]
         if got == ['answers', 'student_list']:
             r.ok(construct, 'check(answer, input)', lib.loc(fi, cell))
@@ -315,6 +349,16 @@ def matrix_body(r, idx):
                             'k-th input' % short(it), where)
             else:
                 r.undecided(construct, 'iterates `%s`, not the solver result' % short(it), where)
+        elif g.ifs and len(g.ifs) == 1 and isinstance(g.target, ast.Tuple) and len(g.target.elts) == 2 \
+                and nf.match('%s < len(student_list)' % (g.target.elts[0].id if isinstance(g.target.elts[0], ast.Name) else '_I'), g.ifs[0]) is not None:
+            if lists_may_differ:
+                r.violation(construct, 'only the pairs whose row belongs to a submitted entry are returned (`if %s`): when fewer items are '
+                            'submitted than expected, the automatic-failure results of the unmatched *expected* items are dropped. The grade '
+                            'is unchanged (they count 0 either way), but all_awarded is computed over the returned results only, so it '
+                            'becomes true and the answer-level message is shown although expected items are missing' % short(g.ifs[0]),
+                            where, expected='one result per row of the padded matrix', found=short(out, 100))
+            else:
+                r.ok(construct, 'result_matrix[row][col] for the rows of the submitted inputs (the lists have equal length here)', where)
         elif g.ifs:
             r.violation(construct, 'pairs are filtered: some inputs get no result', where)
         else:
